@@ -1,6 +1,6 @@
 CONSTANTS
   Descs <- AllDescs
-  InitDescs <- AllDescs
+  InitDescs <- Init08
   InitFS <- FS0
   Editable = {"a", "h", "o1", "b"}
   Deletable = {"h", "m", "o1", "o2", "gen/o4"}
